@@ -89,6 +89,8 @@ def gen(S, tier):
         # another exception rendered (on its own IO) before the one under test
         "prior_exc": None,
         "io_kind": c.weighted([("sim", 6), ("buffered", 1)]),
+        # the second rendering goes to a stream with the other answer to supports_utf8()
+        "utf8_flip2": c.chance(0.3),
     }
     if sc["ignore"] in ("some", "all") and c.chance(0.5):
         # the same trace object, the same pattern, the other side of the debug boundary
@@ -468,8 +470,9 @@ def _run(sc, res, log, store, r):
     # ---- second rendering with another ignore pattern -------------------------------------------
     k2 = sc.get("ignore2")
     if k2 is not None and fault is None:
-        out2 = SimOutputStream("out2", log, ansi=sc["ansi"], utf8=sc["utf8"])
-        err2 = SimOutputStream("err2", log, ansi=sc["ansi"], utf8=sc["utf8"])
+        u2 = (not sc["utf8"]) if sc.get("utf8_flip2") else sc["utf8"]
+        out2 = SimOutputStream("out2", log, ansi=sc["ansi"], utf8=u2)
+        err2 = SimOutputStream("err2", log, ansi=sc["ansi"], utf8=u2)
         io2 = IO(Input(SimInputStream(log, [])), Output(out2, fm), Output(err2, fm))
         v2 = sc.get("verbosity2", sc["verbosity"]) if sc.get("same_trace") else sc["verbosity"]
         io2.set_verbosity(v2)
@@ -487,6 +490,15 @@ def _run(sc, res, log, store, r):
             return
         text2 = strip_ansi(out2.data())
         res.probe("second_render_other_ignore")
+        if sc.get("utf8_flip2"):
+            res.probe("second_render_other_utf8")
+            res.fault("utf8_support_changes_between_renderings")
+            # a stream that cannot show them must not be sent the renderer's own non-ASCII symbols
+            if not u2 and not any(ch in src.text() + msg for ch in "\u2192\u2502"):
+                for ch in "\u2192\u2502":
+                    if ch in text2:
+                        res.violate("snippet", "second_render:symbols", "the stream does not support UTF-8 but the rendering uses %r: %r" % (ch, [l for l in text2.split("\n") if ch in l][:2]))
+                        break
         if type(exc).__name__ not in text2:
             res.violate("name_missing", "second_render", "class name missing in the second rendering")
         if v2 >= 1:
